@@ -56,6 +56,108 @@ def gen_case(r):
     return f"y ~ ({eff} | {grp})" + extra
 
 
+RULE_EFFECTS = ["1", "x", "f", "h", "x + f", "0 + f", "0 + x", "f + h", "0 + f + h", "f:h", "f:x",
+                "0 + f:x", "x + z", "f + x + f:x", "f + h + f:h", "0 + f:h", "1 + f", "x + f:x",
+                "f*h", "0 + f + x", "x:z", "f:h:x"]
+
+
+def crossed_frame(r):
+    import pandas as pd
+    rows = []
+    for g in ["u", "v", "w"]:
+        for f in ["a", "b", "c"]:
+            for h in ["p", "q"]:
+                for _ in range(2):
+                    rows.append({"g": g, "f": f, "h": h, "x": float(r.randrange(-9, 10)),
+                                 "z": r.randrange(-9, 10) / 2, "y": float(r.randrange(-5, 6))})
+    r.shuffle(rows)
+    return pd.DataFrame(rows)
+
+
+def full_indicator_reference(df, term_exprs, grouping):
+    """khatri_rao(J_g, X_full): every effect term coded with the complete set of level indicators"""
+    n = len(df)
+    cols = []
+    for comps in term_exprs:            # comps: list of variable names, [] = intercept
+        block = [np.ones(n)]
+        for v in comps:
+            if df[v].dtype == object or str(df[v].dtype).startswith("str"):
+                ind = [np.asarray(df[v] == l, dtype=float) for l in sorted(df[v].unique())]
+            else:
+                ind = [np.asarray(df[v], dtype=float)]
+            block = [a * b for a in block for b in ind]
+        cols += block
+    x = np.column_stack(cols)
+    j = np.column_stack([np.asarray(df[grouping] == l, dtype=float) for l in sorted(df[grouping].unique())])
+    return np.column_stack([j[:, a] * x[:, b] for a in range(j.shape[1]) for b in range(x.shape[1])])
+
+
+def coding_rule_stage(res, tier, seed, open_ids):
+    """second clause of the statement, on fully crossed data: the columns of one grouping factor are
+    linearly independent and span all group-by-cell means of the effect expression (exact rank)"""
+    import formulae
+    from formulae.terms import Intercept
+    n_rep = 1 if tier == "quick" else 6
+    for rep in range(n_rep):
+        r = rng_for(seed, "c05", "rule", rep)
+        df = crossed_frame(r)
+        for eff in RULE_EFFECTS:
+            formula = f"y ~ ({eff} | g)"
+            res.evaluations += 1
+            case = {"formula": formula, "seed_path": f"rule{rep}"}
+            try:
+                dm = formulae.design_matrices(formula, df)
+            except Exception as e:  # noqa
+                res.count("rule_impl_error:" + type(e).__name__)
+                continue
+            terms = list(dm.group.terms.values())
+            z = np.column_stack([dm.group[t.name] for t in terms])
+            exprs, flags = [], []
+            for t in terms:
+                if isinstance(t.expr, Intercept):
+                    exprs.append([])
+                else:
+                    exprs.append([str(c.name) for c in t.expr.components])
+                    flags.append([t.name, [[str(c.name), bool(c.spans_intercept)] for c in t.expr.components
+                                           if c.kind == "categoric"]])
+            ref = full_indicator_reference(df, exprs, "g")
+            rz = rank(z.tolist())
+            rr = rank(ref.tolist())
+            rj = rank(np.column_stack([z, ref]).tolist())
+            res.count("rule_cases")
+            ok = rz == z.shape[1] and rz == rr == rj
+            res.nontrivial.add((formula, rep))
+            if not ok:
+                # recorded defect classes D11 / D12: the rule the code uses ("reduced iff (1 | g) is in
+                # the model") differs from the common-effects analysis (C03) of the effect family,
+                # decided by the Lean driver
+                fam = []
+                for t in terms:
+                    if isinstance(t.expr, Intercept):
+                        fam.append({"i": True})
+                    else:
+                        fam.append({"c": [[str(c.name), "c" if c.kind == "categoric" else "n", False]
+                                          for c in t.expr.components]})
+                used = [[":".join(str(c.name) for c in t.expr.components),
+                         [[str(c.name), bool(c.spans_intercept)] for c in t.expr.components
+                          if c.kind == "categoric"]]
+                        for t in terms if not isinstance(t.expr, Intercept)]
+                rule = ask([{"op": "c05_rule", "family": fam, "used": used}])[0]
+                cls = None
+                if not rule["agrees"]:
+                    cls = "KF-C05-D11" if rule.get("has_intercept") else "KF-C05-D12"
+                fid = cls if cls in open_ids else None
+                if fid:
+                    res.known_hit[fid] = res.known_hit.get(fid, 0) + 1
+                res.failures.append({"case": case, "impl": {"columns": int(z.shape[1]), "rank": rz,
+                                                            "rank_reference": rr, "rank_joint": rj,
+                                                            "flags": flags},
+                                     "expected": "independent columns spanning the group-by-cell means",
+                                     "finding": fid,
+                                     "why": f"columns of grouping factor g: {z.shape[1]} columns, rank {rz}, "
+                                            f"reference space rank {rr}, joint rank {rj}"})
+
+
 def explore(tier, seed, res=None, replay=None):
     from formulae.terms import Intercept
     res = res or Result()
@@ -125,4 +227,6 @@ def explore(tier, seed, res=None, replay=None):
         diffs = designs.compare(obs, mo)
         if diffs:
             res.mismatches.append({"case": case, "diff": diffs[:5]})
+    if replay is None or str(replay.get("seed_path", "")).startswith("rule"):
+        coding_rule_stage(res, tier, seed, {k["id"] for k in known_findings("C05")})
     return res
